@@ -752,3 +752,29 @@ def shape(node: ast.AST | None, limit: int = 200) -> str:
     """text of `node` with every local/global variable name replaced by `_` (attribute
     names, constants, builtins and self/cls kept): stable under renaming of variables."""
     return alpha(node, {}, "_", limit=limit)
+
+
+def always_raises(body: list[ast.stmt]) -> bool:
+    """every path through this statement list ends in a raise (last statement is a raise, or an
+    if/else whose two branches both always raise)."""
+    if not body:
+        return False
+    last = body[-1]
+    if isinstance(last, ast.Raise):
+        return True
+    if isinstance(last, ast.If) and last.orelse:
+        return always_raises(last.body) and always_raises(last.orelse)
+    return False
+
+
+def rejecting_guards(fn_node: ast.AST, is_subject) -> list[tuple[ast.If, list[ast.AST]]]:
+    """`if <test>: ... raise` statements whose test involves the subject, each with the list of
+    conjuncts that NARROW the rejection (operands of a top-level `and` that do not involve the
+    subject).  An exact guard has an empty list."""
+    out = []
+    for n in walk_own(fn_node):
+        if isinstance(n, ast.If) and always_raises(n.body) and any(is_subject(k) for k in ast.walk(n.test)):
+            ops = n.test.values if isinstance(n.test, ast.BoolOp) and isinstance(n.test.op, ast.And) else [n.test]
+            extra = [o for o in ops if not any(is_subject(k) for k in ast.walk(o))]
+            out.append((n, extra))
+    return out
